@@ -75,10 +75,21 @@ impl DPull {
             DPull::Obj(o) => o.rekey(),
         }
     }
+    /// classic API only: the genuine ciphertext pulled into a message buffer that is too short for it
+    fn pull_short_buffer(&mut self, c: &[u8], ad: Option<&[u8]>, buflen: usize) -> Option<Result<(Vec<u8>, u8), String>> {
+        match self {
+            DPull::Classic(s) => {
+                let mut m = stale(buflen);
+                let mut tag = 0xEEu8;
+                Some(ss::crypto_secretstream_xchacha20poly1305_pull(s, &mut m, &mut tag, c, ad).map(|_| (m, tag)).map_err(|e| e.to_string()))
+            }
+            DPull::Obj(_) => None,
+        }
+    }
     fn pull(&mut self, c: &[u8], ad: Option<&[u8]>) -> Result<(Vec<u8>, u8), String> {
         match self {
             DPull::Classic(s) => {
-                let mut m = stale(c.len() - 17);
+                let mut m = stale(c.len().saturating_sub(17));
                 let mut tag = 0xEEu8;
                 ss::crypto_secretstream_xchacha20poly1305_pull(s, &mut m, &mut tag, c, ad).map_err(|e| e.to_string())?;
                 Ok((m, tag))
@@ -127,7 +138,7 @@ impl<'a> Hist<'a> {
     }
 }
 
-const KINDS: [&str; 6] = ["replay", "skip", "swap", "foreign", "wrong_ad", "bit_flip"];
+const KINDS: [&str; 8] = ["replay", "skip", "swap", "foreign", "wrong_ad", "bit_flip", "short_ciphertext", "short_buffer"];
 const ADLENS: [Option<usize>; 7] = [None, Some(0), Some(1), Some(15), Some(16), Some(17), Some(300)];
 
 fn run_history(cx: &mut Ctx, rng: &mut Rng, hid: u64, depth: usize, class: usize, use_obj: bool, log_offline: bool) {
@@ -267,6 +278,16 @@ fn run_history(cx: &mut Ctx, rng: &mut Rng, hid: u64, depth: usize, class: usize
                     "replay" => accepted.last().cloned().or_else(|| None),
                     "skip" | "swap" => pending.iter().skip(1).find_map(|i| if let Item::Ct { ct, ad, .. } = i { Some((ct.clone(), ad.clone())) } else { None }),
                     "foreign" => Some((foreign.clone(), ad.clone())),
+                    // refusals that are not authentication failures: too short to hold a tag byte and a MAC, and the
+                    // genuine ciphertext offered with a message buffer that cannot hold its plaintext
+                    "short_ciphertext" => Some((ct[..rng.below(17).min(ct.len())].to_vec(), ad.clone())),
+                    "short_buffer" => {
+                        if use_obj || ct.len() <= 17 {
+                            None
+                        } else {
+                            Some((ct.clone(), ad.clone()))
+                        }
+                    }
                     "wrong_ad" => {
                         let nad = match &ad {
                             None => Some(vec![0u8]),
@@ -295,7 +316,7 @@ fn run_history(cx: &mut Ctx, rng: &mut Rng, hid: u64, depth: usize, class: usize
                 let _ = have_ct;
                 // sanity: the model must reject it too (on a copy, libsodium's pull leaves state alone on failure)
                 let mut ncopy = na::stream_state(npull.k, npull.nonce);
-                if na::stream_pull(&mut ncopy, &bct, bad_ad.as_deref()).is_some() {
+                if kind != "short_buffer" && na::stream_pull(&mut ncopy, &bct, bad_ad.as_deref()).is_some() {
                     // e.g. identical consecutive pushes after... cannot happen with distinct nonces; treat as harness problem
                     h.cx.violation("HARNESS|C03|libsodium_accepts_wrong_delivery", json!({"kind":kind}));
                     continue;
@@ -303,7 +324,12 @@ fn run_history(cx: &mut Ctx, rng: &mut Rng, hid: u64, depth: usize, class: usize
                 let snap = dpull.state_clone();
                 let parts_before = dpull.parts();
                 h.trace.push(json!({"op":"deliver-wrong","kind":kind,"ctlen":bct.len()}));
-                let r = guard("pull(wrong)", || dpull.pull(&bct, bad_ad.as_deref()));
+                let short_len = if bct.len() > 17 { rng.below(bct.len() - 17) } else { 0 };
+                let r = if kind == "short_buffer" {
+                    guard("pull(short buffer)", || dpull.pull_short_buffer(&bct, bad_ad.as_deref(), short_len).expect("classic"))
+                } else {
+                    guard("pull(wrong)", || dpull.pull(&bct, bad_ad.as_deref()))
+                };
                 h.cx.eval();
                 match r {
                     Err(p) => {
